@@ -354,7 +354,7 @@ pub fn subchecks(tier: Tier) -> Vec<SubCheck> {
     vec![generated(
         "conversion_chains",
         "start object of any of the six types + a chain of <= 8 conversions over the whole conversion graph (to_/from_/into_mut_/try_into_mut_/From/TryFrom/normalize*/dual routes), destinations fresh or still holding another hash; after every step the object is valid and full_eq the object built directly from the abstract value (block size, symbols; collapsed once a normalising edge was taken); narrowing fails exactly when block hash 2 > 32 and leaves its destination untouched; final text = source text or its run-collapsed form; non-trivial = chain >= 2 with a narrowing or a dirty destination; distinct by (start, chain)",
-        tier.pick(400_000, 6_000_000),
+        tier.pick(1_200_000, 12_000_000),
         strategy,
         eval,
     )]
